@@ -349,7 +349,7 @@ def run(rep, tier):
             from . import c20 as _c20
             _c20.clause_stable_pointer(facts, rep, files=('sonic/dom/serialize.h', 'sonic/writebuffer.h'))
         from .. import narrowing
-        narrowing.check(facts, rep, 'E3.lossless-narrowing', ('itoa.h',), min_sites=1)
+        narrowing.check(get_facts(facts.config, norm=True), rep, 'E3.lossless-narrowing', ('itoa.h',), min_sites=1)
     rep.trust('clang 14 front end and constant evaluator', 'Intel intrinsic lane semantics in sv/sse_interp.py',
               'exact-division theorem (Hacker\'s Delight 10-9)', 'Python big integers')
     rep.assumptions += [
